@@ -66,6 +66,8 @@ pub mod hash;
 pub mod stream_naming;
 pub mod types;
 pub mod varint;
+#[cfg(ragc_verif)]
+pub mod verif_zstd;
 
 // Re-export commonly used types
 pub use types::{Base, Contig, PackedBlock};
